@@ -50,7 +50,9 @@ def describe(v, depth=0, call=True):
         return (tn,)
     if isinstance(v, types.GeneratorType):
         return ('gen',)
-    return ('obj', tn)
+    if type(v).__module__ in ('builtins', 'collections', 'types', 'typing', 're', 'itertools', 'functools'):
+        return ('obj', tn)
+    return ('obj',)     # instances of program-defined classes: the class name is a reflective view
 
 
 class _CM(object):
